@@ -79,7 +79,26 @@ def go_env():
 
 def build(check_id, cfg, repo, tmp):
     """Builds the test binary for the check from repo's working tree."""
-    tags = "verif,autoyield" if cfg.get("autoyield") else "verif"
+    ay = cfg.get("autoyield") or {}
+    binary = build_once(check_id, cfg, repo, tmp, simsync=bool(ay.get("simsync")))
+    if binary is None and ay.get("simsync"):
+        # The simulated mutexes are a textual replacement of sync.Mutex,
+        # sync.RWMutex and sync.Once in the instrumented files; a tree in which
+        # another file of the package uses such a field as the real type does
+        # not compile that way.  Fall back to real mutexes (peeked, with the
+        # lexical guard and stall detection).
+        log("note: the tree does not compile with simulated mutexes; building with the real ones")
+        binary = build_once(check_id, cfg, repo, tmp, simsync=False)
+        cfg["simsync_used"] = False
+    elif ay.get("simsync"):
+        cfg["simsync_used"] = True
+    return binary
+
+
+def build_once(check_id, cfg, repo, tmp, simsync):
+    tags = "verif"
+    if cfg.get("autoyield"):
+        tags = "verif,autoyield,simsync" if simsync else "verif,autoyield"
     args = [go_bin(), "test", "-c", "-tags", tags, "-o", os.path.join(tmp, check_id + ".test")]
     if cfg.get("race"):
         args.append("-race")
@@ -110,9 +129,9 @@ def build(check_id, cfg, repo, tmp):
         if ay.get("simfile"):
             d, pkg = ay["simfile"].split(":")
             opts += ["-simfile", os.path.join(repo, d) + ":" + pkg]
-        if ay.get("simsync"):
-            # sync.Mutex / sync.RWMutex in the listed files become simulated
-            # mutexes (scheduler state), see sim/kernel/simsync.go.
+        if simsync:
+            # sync.Mutex / sync.RWMutex / sync.Once in the listed files become
+            # simulated primitives (scheduler state), see sim/kernel/simsync.go.
             d, pkg = ay["simsync"].split(":")
             opts += ["-simsync", os.path.join(repo, d) + ":" + pkg]
         p = subprocess.run(
@@ -128,7 +147,7 @@ def build(check_id, cfg, repo, tmp):
     args += ["-modfile=" + modfile, cfg["pkg"]]
     p = subprocess.run(args, cwd=VERIF, env=go_env(), stdout=subprocess.PIPE, stderr=subprocess.STDOUT, text=True)
     if p.returncode != 0:
-        log("HARNESS-ERROR: build failed (exit %d):\n%s" % (p.returncode, p.stdout[-4000:]))
+        log("%s: build failed (exit %d):\n%s" % ("note" if simsync else "HARNESS-ERROR", p.returncode, p.stdout[-4000:]))
         return None
     log("built %s from %s in %.1fs" % (check_id, repo, time.time() - t0))
     return os.path.join(tmp, check_id + ".test")
@@ -607,6 +626,7 @@ def drive(args, check_id, cfg, tier, seed, repo, tmp, t_start):
         components=meta["components"],
         toolchain=go_version,
         race_detector=bool(cfg.get("race")),
+        simulated_mutexes=cfg.get("simsync_used"),
         repo=repo,
         known_finding_hits=known_hits,
     )
